@@ -174,10 +174,6 @@ class World:
         n = act["n"]
         if st != "ok":
             return [(n + ": raised", out, got)]
-        if n == "LongGrant":
-            return impl_call(self.regions[act["r"]].update_caps, {"CapA": self.concrete(act["u"])})
-        if n == "LongTemp":
-            return impl_call(self.regions[act["r"]].register_cap, "UpTemp", self.concrete(act["u"]), CapType.TEMPORARY)
         if n == "RegisterProxy":
             sym = out[0]
             if sym not in self.bound:
